@@ -36,7 +36,11 @@ def adjoint_check(ctx, Ax, x, AHy, y, bucket, what, tol=1e-10):
     lhs = U.inner(y, Ax)
     rhs = U.inner(AHy, x)
     scale = float(np.linalg.norm(y) * np.linalg.norm(Ax)) + float(np.linalg.norm(AHy) * np.linalg.norm(x)) + 1e-300
-    err = abs(lhs - rhs) / scale
+    # every operator checked here has norm of order one (normalised transforms, masks and stops of modulus <= ~1): when A x is zero by
+    # cancellation (Babinet: f - T_(1-m) f on a one-sample pupil) both inner products are rounding residue of size eps |x| |y|, which is
+    # the floor of the comparison (found by a background sweep)
+    floor = 1e-13 * float(np.linalg.norm(y) * np.linalg.norm(x))
+    err = max(0.0, abs(lhs - rhs) - floor) / scale
     ctx.require(np.isfinite(err) and err <= tol, bucket, '%s: <y,Ax>=%r but <A^H y,x>=%r (relative mismatch %.3g)' % (what, complex(lhs), complex(rhs), err))
 
 
